@@ -60,6 +60,7 @@ CONTROLS = {
                 ("Timeout.mc5.cfg", {"Bug": '"stale_now"'}, "ContractHolds"),
                 ("Timeout.mc.cfg", {"Bug": '"wake_only_if_empty"'}, "ContractHolds"),
                 ("Timeout.mc.cfg", {"Bug": '"partition_unlocked"'}, "NoJobLost"),
+                ("Timeout.mc4.cfg", {"Bug": '"two_clock_reads"'}, "NoJobLost"),
                 ("Timeout.mc.cfg", {"Bug": '"no_set_on_submit"'}, "NoTimerlessSleepWithWork")],
     "WorkerLoop": [("WorkerLoop.mc.cfg", {"Bug": '"clear_before_wait"'}, "ThreadExits"),
                    ("WorkerLoop.mc.cfg", {"Bug": '"no_set_on_shutdown"'}, "ThreadExits"),
